@@ -13,12 +13,12 @@ EXTENDS LoaderMT
 
 CONSTANTS Scenario, Locked
 
-MTNames == {"n", "m", "o", "default"}
+MTNames == {"n", "m", "o", "u", "default"}
 MTDirs == <<"d1">>
 MTLoadable == [d \in {"d1"} |-> <<"d1/a">>]
 MTIgnored == [d \in {"d1"} |-> {}]
 MTRoles == {"a", "b", "d1r", "d2r", "dflt", "old", "nobody"}
-MTOrder == <<"default", "m", "n", "o">>      \* the harness writes files with sorted keys
+MTOrder == <<"default", "m", "n", "o", "u">>      \* the harness writes files with sorted keys
 NoDep == [name |-> "", body |-> None]
 MTDefaults ==
   CASE Scenario \in {"main_edit_dir_override", "dir_edit", "alias_eval"} -> <<>>
@@ -31,19 +31,23 @@ C1(n, b) == [NoRules EXCEPT ![n] = b]
 C2(n1, b1, n2, b2) == [NoRules EXCEPT ![n1] = b1, ![n2] = b2]
 \* file system before and after the edit
 FsOld ==
-  CASE Scenario = "main_edit_dir_override" -> [f \in {"main", "d1/a"} |-> IF f = "main" THEN File(C1("n", RolesB({"a"})), 1) ELSE File(C1("n", RolesB({"d1r"})), 1)]
-    [] Scenario = "dir_edit"               -> [f \in {"main", "d1/a"} |-> IF f = "main" THEN File(C1("n", RolesB({"a"})), 1) ELSE File(C1("n", RolesB({"d1r"})), 1)]
+  CASE Scenario = "main_edit_dir_override" -> [f \in {"main", "d1/a"} |-> IF f = "main" THEN File(C2("n", RolesB({"a"}), "m", RolesB({"a"})), 1) ELSE File(C1("n", RolesB({"d1r"})), 1)]
+    [] Scenario = "dir_edit"               -> [f \in {"main", "d1/a"} |-> IF f = "main" THEN File(C2("n", RolesB({"a"}), "m", RolesB({"a"})), 1) ELSE File(C1("n", RolesB({"d1r"})), 1)]
     [] Scenario = "defaults_permissive"    -> [f \in {"main", "d1/a"} |-> IF f = "main" THEN File(C2("default", AnyB, "m", RolesB({"a"})), 1) ELSE Gone]
     [] Scenario = "deprecated"             -> [f \in {"main", "d1/a"} |-> IF f = "main" THEN File(C1("o", RolesB({"a"})), 1) ELSE Gone]
     [] Scenario = "alias_eval"             -> [f \in {"main", "d1/a"} |-> IF f = "main" THEN File(C2("n", Alias("m"), "m", RolesB({"a"})), 1) ELSE Gone]
 FsNew ==
-  CASE Scenario = "main_edit_dir_override" -> [FsOld EXCEPT !["main"] = File(C1("n", RolesB({"b"})), 2)]
+  CASE Scenario = "main_edit_dir_override" -> [FsOld EXCEPT !["main"] = File(C2("n", RolesB({"b"}), "m", RolesB({"a"})), 2)]
     [] Scenario = "dir_edit"               -> [FsOld EXCEPT !["d1/a"] = File(C1("n", RolesB({"d2r"})), 2)]
     [] Scenario = "defaults_permissive"    -> [FsOld EXCEPT !["main"] = File(C2("default", AnyB, "m", RolesB({"b"})), 2)]
     [] Scenario = "deprecated"             -> [FsOld EXCEPT !["main"] = File(C1("o", RolesB({"b"})), 2)]
     [] Scenario = "alias_eval"             -> [FsOld EXCEPT !["main"] = File(C2("n", RolesB({"b"}), "m", RolesB({"d2r"})), 2)]
 DirSt == [d \in {"d1"} |-> [exists |-> TRUE, mtime |-> 1]]
-Query == IF Scenario = "deprecated" \/ Scenario = "defaults_permissive" THEN {"n"} ELSE {"n"}
+\* what is asked: the rule the edit concerns; a rule that lives only in the (unchanged part
+\* of the) main file; an undeclared name that resolves through the permissive default rule
+Query == CASE Scenario \in {"main_edit_dir_override", "dir_edit"} -> {"n", "m"}
+           [] Scenario = "defaults_permissive" -> {"n", "u", "m"}
+           [] OTHER -> {"n"}
 
 VARIABLES sh, lo, fs, edited, lock, startedAfterEdit
 vars == <<sh, lo, fs, edited, lock, startedAfterEdit>>
